@@ -60,7 +60,26 @@ func runC15(c *Ctx) {
 	R.Rules["S.reply"] = "the platform answers exactly the control stages (0x1210, 0x1211, 0x1212 -> init / start / complete / supplementary), once per extracted frame, with the bytes ReplyData built; chunks are not answered; the reply for command K is built by the handler whose Protocol() is K"
 	R.Rules["S.read-append"] = "every Read result is appended to the pending buffer as buffer[:n], and the extraction loop never looks at the read buffer itself"
 	stage := c.P.Method("attachment", "PackageProgress", "stageStreamData")
-	parseMsg := c.P.Method("attachment", "PackageProgress", "parseJT808Message")
+	// the control-frame extractor, by role: the method of PackageProgress that hands a prefix of the pending buffer to
+	// JTMessage.Decode (a function of its own today; may be merged into its caller)
+	var parseMsg *ssa.Function
+	for _, f := range c.RepoFuncs("attachment") {
+		if f.Parent() != nil || f.Signature.Recv() == nil {
+			continue
+		}
+		if tn, ok := derefNamed(f.Signature.Recv().Type()); !ok || tn != "PackageProgress" {
+			continue
+		}
+		for _, b := range f.Blocks {
+			for _, ins := range b.Instrs {
+				if call, ok := ins.(*ssa.Call); ok {
+					if sc := call.Call.StaticCallee(); sc != nil && sc.Name() == "Decode" && strings.Contains(sc.String(), "JTMessage") {
+						parseMsg = f
+					}
+				}
+			}
+		}
+	}
 	run := c.P.Method("attachment", "connection", "run")
 	if stage == nil || parseMsg == nil || run == nil {
 		R.Fatal("anchors PackageProgress.stageStreamData / parseJT808Message / connection.run not found")
@@ -129,8 +148,16 @@ func (c *Ctx) c15Chunk(stage *ssa.Function) {
 		}
 	}
 	_ = packAl
+	fam := c.familyOf(stage)
+	inFam := map[*ssa.Function]bool{}
+	for _, f := range fam {
+		inFam[f] = true
+	}
 	var closure *ssa.Function
-	for _, an := range stage.AnonFuncs {
+	for _, an := range fam {
+		if an.Parent() == nil {
+			continue
+		}
 		for _, b := range an.Blocks {
 			for _, ins := range b.Instrs {
 				if st, ok := ins.(*ssa.Store); ok {
@@ -180,7 +207,7 @@ func (c *Ctx) c15Chunk(stage *ssa.Function) {
 			return hs
 		}
 		a.OnMapUpdate = func(f2 *ssa.Function, ins *ssa.MapUpdate, st *absint.State, m, k, v absint.Term) {
-			if f2 != stage {
+			if !inFam[f2] {
 				return
 			}
 			_, fld, _ := fieldLoad(ins.Map)
@@ -227,7 +254,7 @@ func (c *Ctx) c15Chunk(stage *ssa.Function) {
 					d = fmt.Sprintf("after the chunk the pending buffer starts %s bytes further on; the chunk ended at %s: bytes of the next frame are dropped or re-read", vs.Off.Sub(os.Off), gh(st, gEnd))
 				}
 				a.Oblige("T.chunk", f2, ins, "pending buffer = bytes behind the chunk", okR, d)
-			case f2 == stage && owner == "Package" && fld == "CurrentSize":
+			case inFam[f2] && f2 != closure && owner == "Package" && fld == "CurrentSize":
 				nSize++
 				ov, _ := old.(absint.Int)
 				nv, _ := val.(absint.Int)
@@ -241,7 +268,7 @@ func (c *Ctx) c15Chunk(stage *ssa.Function) {
 							if look, isLook := lk.Tuple.(*ssa.Lookup); isLook && look.CommaOk {
 								if _, lf, _ := fieldLoad(look.X); lf == "OffsetRecord" {
 									// guarded by the ok of the same lookup
-									for _, b := range stage.Blocks {
+									for _, b := range ins.Parent().Blocks {
 										if iff, isIf := b.Instrs[len(b.Instrs)-1].(*ssa.If); isIf {
 											if ex, isEx := iff.Cond.(*ssa.Extract); isEx && ex.Tuple == lk.Tuple && ex.Index == 1 && b.Succs[0].Dominates(ins.Block()) {
 												okT, d = true, ""
@@ -269,11 +296,11 @@ func (c *Ctx) c15Chunk(stage *ssa.Function) {
 				rl := gh(st, gRec)
 				okL := st.Entails(eqC(rl, gh(st, gLen)))
 				a.Oblige("T.account", stage, ins, "the length recorded for the offset is the chunk's body length", okL, fmt.Sprintf("the length recorded per offset is %s but the chunk's body is %s bytes: a resend takes back a different amount than was added", rl, gh(st, gLen)))
-			case f2 == stage && fld == "ProgressStage":
+			case inFam[f2] && fld == "ProgressStage":
 				if k, isK := constInt(ins.Val); isK {
 					name := c.stageName(k)
 					if strings.Contains(name, "StreamDataComplete") {
-						okC := completeGuarded(stage, ins)
+						okC := completeGuarded(ins.Parent(), ins)
 						a.Oblige("T.account", stage, ins, "complete only where CurrentSize == FileSize", okC, "the file is marked complete on a path where CurrentSize == FileSize is not known to hold")
 					}
 				}
@@ -297,48 +324,50 @@ func (c *Ctx) c15Chunk(stage *ssa.Function) {
 	}
 	// idempotence of the accounting: the record of an offset is overwritten only after its old length was looked up under the
 	// same key and taken back
-	for _, b := range stage.Blocks {
-		for _, ins := range b.Instrs {
-			mu, ok := ins.(*ssa.MapUpdate)
-			if !ok {
-				continue
-			}
-			if _, f, _ := fieldLoad(mu.Map); f != "OffsetRecord" {
-				continue
-			}
-			okI := false
-			for _, b2 := range stage.Blocks {
-				for _, i2 := range b2.Instrs {
-					lk, isLk := i2.(*ssa.Lookup)
-					if !isLk || !lk.CommaOk || lk.Index != mu.Key {
-						continue
-					}
-					if _, f, _ := fieldLoad(lk.X); f != "OffsetRecord" || !b2.Dominates(b) {
-						continue
-					}
-					for _, b3 := range stage.Blocks {
-						for _, i3 := range b3.Instrs {
-							st, isSt := i3.(*ssa.Store)
-							if !isSt {
-								continue
-							}
-							if _, f, okf := fieldNameOfAddr(st.Addr); !okf || f != "CurrentSize" {
-								continue
-							}
-							if bo, isBo := st.Val.(*ssa.BinOp); isBo && bo.Op == token.SUB {
-								if ex, isEx := stripConv(bo.Y).(*ssa.Extract); isEx && ex.Tuple == ssa.Value(lk) && ex.Index == 0 {
-									okI = true
+	for _, famFn := range fam {
+		for _, b := range famFn.Blocks {
+			for _, ins := range b.Instrs {
+				mu, ok := ins.(*ssa.MapUpdate)
+				if !ok {
+					continue
+				}
+				if _, f, _ := fieldLoad(mu.Map); f != "OffsetRecord" {
+					continue
+				}
+				okI := false
+				for _, b2 := range famFn.Blocks {
+					for _, i2 := range b2.Instrs {
+						lk, isLk := i2.(*ssa.Lookup)
+						if !isLk || !lk.CommaOk || lk.Index != mu.Key {
+							continue
+						}
+						if _, f, _ := fieldLoad(lk.X); f != "OffsetRecord" || !b2.Dominates(b) {
+							continue
+						}
+						for _, b3 := range famFn.Blocks {
+							for _, i3 := range b3.Instrs {
+								st, isSt := i3.(*ssa.Store)
+								if !isSt {
+									continue
+								}
+								if _, f, okf := fieldNameOfAddr(st.Addr); !okf || f != "CurrentSize" {
+									continue
+								}
+								if bo, isBo := st.Val.(*ssa.BinOp); isBo && bo.Op == token.SUB {
+									if ex, isEx := stripConv(bo.Y).(*ssa.Extract); isEx && ex.Tuple == ssa.Value(lk) && ex.Index == 0 {
+										okI = true
+									}
 								}
 							}
 						}
 					}
 				}
+				stt := report.Discharged
+				if !okI {
+					stt = report.Violated
+				}
+				R.Add("T.account", shortFn(stage)+" / a resent offset does not count twice", c.P.RelPos(mu.Pos()), stt, "the length recorded for an offset is overwritten without the old length being taken back from CurrentSize: a resent chunk is counted twice and a file with a missing chunk is reported complete")
 			}
-			stt := report.Discharged
-			if !okI {
-				stt = report.Violated
-			}
-			R.Add("T.account", shortFn(stage)+" / a resent offset does not count twice", c.P.RelPos(mu.Pos()), stt, "the length recorded for an offset is overwritten without the old length being taken back from CurrentSize: a resent chunk is counted twice and a file with a missing chunk is reported complete")
 		}
 	}
 }
@@ -409,9 +438,24 @@ func constantInt(k *types.Const) (int64, bool) {
 }
 
 // c15Assemble: body assembled from empty, in ascending offset order (SSA rules).
-func (c *Ctx) c15Assemble(stage *ssa.Function) {
+func (c *Ctx) c15Assemble(stage0 *ssa.Function) {
 	R := c.R
-	name := shortFn(stage)
+	// the function of the chunk step's family that assembles the body (the step itself, or a helper it calls)
+	stage := stage0
+	for _, f := range c.familyOf(stage0) {
+		for _, b := range f.Blocks {
+			for _, ins := range b.Instrs {
+				if st, ok := ins.(*ssa.Store); ok {
+					if _, fld, ok := fieldNameOfAddr(st.Addr); ok && fld == "StreamBody" {
+						if _, isApp := isBuiltinCall(instrOf(st.Val), "append"); isApp {
+							stage = f
+						}
+					}
+				}
+			}
+		}
+	}
+	name := shortFn(stage0)
 	// the sort call and the variable it sorts
 	var sorted ssa.Value
 	var sortCall *ssa.Call
@@ -1225,4 +1269,33 @@ func (c *Ctx) chunkStageStandalone(rule string) {
 		c.R.Add("E1.undecided", shortFn(stage)+" / "+u, "", report.Undecided, u)
 	}
 	c.chunkStageRule(rule, stage, res[0])
+}
+
+// familyOf: fn, the functions of its package it calls statically (transitively, a few levels) and their function
+// literals: the code a rule about "what fn does" has to look at when the body is split into helpers.
+func (c *Ctx) familyOf(fn *ssa.Function) []*ssa.Function {
+	seen := map[*ssa.Function]bool{}
+	var out []*ssa.Function
+	var add func(f *ssa.Function, depth int)
+	add = func(f *ssa.Function, depth int) {
+		if f == nil || seen[f] || depth > 3 || len(f.Blocks) == 0 {
+			return
+		}
+		seen[f] = true
+		out = append(out, f)
+		for _, an := range f.AnonFuncs {
+			add(an, depth)
+		}
+		for _, b := range f.Blocks {
+			for _, ins := range b.Instrs {
+				if ci, ok := ins.(ssa.CallInstruction); ok {
+					if sc := ci.Common().StaticCallee(); sc != nil && c.P.IsRepoFunc(sc) && pkgOf(sc) == pkgOf(fn) {
+						add(sc, depth+1)
+					}
+				}
+			}
+		}
+	}
+	add(fn, 0)
+	return out
 }
